@@ -6,7 +6,7 @@ from props import pipefmt, pipecheck, gen_programs
 
 PID = "C18"
 MANIFEST_ENTRY = {
- "level_claimed": {"category": "proof", "text": "Theorems in coq/Properties/C18.v over the transliterated parser (whose input is the list of token TYPES, so no token text can matter). UNBOUNDED (induction over the main loop, every token list, whole alphabet, no side condition other than that the gap has a kept token on each side): the parser state modulo token indices is preserved by every step (C18_step_ignores_token_indices); whitespace and blank-line separators at either end of the program are ignored (C18_trim_ends); between the same tokens, any two non-empty runs of whitespace / annotation / comment-line tokens that both contain a whitespace token (or both contain none) give the same acceptance and the same tree (C18_trivia_runs_full) -- so an annotation or comment line next to whitespace is invisible (C18_annotation_next_to_whitespace_full) and any number of adjacent whitespace tokens behaves as one (C18_whitespace_repetition_full); an annotation or comment line inserted anywhere inside an ACCEPTED program, with or without whitespace in that gap, leaves it accepted with the same tree (C18_annotation_insert_full; one direction only, the converse is false in the model and in the parser: `5 []()` is rejected, `5 []@a()` accepted). These rest on a parser-state invariant proved for every step (C18_settled_always: the finished-side-effect-block adjustment of last_left has settled after every prefix). STILL BOUNDED (vm_compute enumeration, at most three non-trivia tokens over the representative alphabet; C18_full_statement stated, not proved): any two accepted whitespace spellings (adding / removing whitespace where both are accepted) give the same tree -- beyond the bound this is false of model and parser after two adjacent side-effect blocks (`[1][2]5` vs `[1][2] 5`, witness C18_whitespace_spelling_unbounded_refuted, reported as a finding) --, equal ACCEPTANCE for an annotation in a gap without whitespace, and parentheses around a complete operand add only group nodes. The parser model is tied to parser.rs by the regenerated tables and node-for-node comparison. At source level the check applies every rewrite of the property (widen / remove whitespace where the token sequence is unchanged, trailing whitespace before a line break, annotations, comment lines, parentheses around an operand, an inert side-effect block) at every applicable position of generated programs and compares the real parse trees modulo trivia and groups and the real final values on both data implementations.", "design_ref": "DESIGN.md section 8 C18"},
+ "level_claimed": {"category": "proof", "text": "Theorems in coq/Properties/C18.v over the transliterated parser (whose input is the list of token TYPES, so no token text can matter). UNBOUNDED (induction over the main loop, every token list, whole alphabet, no side condition on where in the program the rewrite happens): the parser state modulo token indices is preserved by every step (C18_step_ignores_token_indices); whitespace, blank-line separators, annotations and comment lines at either end of the program are ignored (C18_trim_ends); between the same tokens or at either end, any two non-empty runs of whitespace / annotation / comment-line tokens that both contain a whitespace token (or both contain none) give the same acceptance and the same tree (C18_trivia_runs_full) -- so an annotation or comment line next to whitespace is invisible (C18_annotation_next_to_whitespace_full) and any number of adjacent whitespace tokens behaves as one (C18_whitespace_repetition_full); an annotation or comment line inserted anywhere in an ACCEPTED program, with or without whitespace in that gap, leaves it accepted with the same tree (C18_annotation_insert_full; one direction only, the converse is false in the model and in the parser: `5 [](1)` is rejected, `5 []@a(1)` accepted). These rest on a parser-state invariant proved for every step (C18_settled_always). Two parser defects found by these proofs were repaired (annotations at either end shielded a blank-line separator from trimming; whitespace after two adjacent side-effect blocks became the list operator) and are kept as regression Examples. STILL BOUNDED (vm_compute enumeration, at most three non-trivia tokens over the representative alphabet; C18_full_statement stated, not proved): any two accepted whitespace spellings (adding / removing whitespace where both are accepted) give the same tree, equal ACCEPTANCE for an annotation in a gap without whitespace, and parentheses around a complete operand add only group nodes -- outside known finding C18-K1 (a parenthesised operand or prefix operator right after a side-effect block that has no operand before it is rejected as malformed; witness Example C18_K1_parens_after_operandless_block_refuted, classifier block_then_group). The parser model is tied to parser.rs by the regenerated tables and node-for-node comparison. At source level the check applies every rewrite of the property (widen / remove whitespace where the token sequence is unchanged, trailing whitespace before a line break, annotations, comment lines, a comment or annotation next to a blank line at the very start / end, parentheses around an operand, an inert side-effect block) at every applicable position of generated programs (including runs of adjacent side-effect blocks followed by whitespace) and compares the real parse trees modulo trivia and groups and the real final values on both data implementations.", "design_ref": "DESIGN.md section 8 C18"},
  "level_note": "Trusted: Coq kernel (vm_compute), translator, harness binaries pipeline and exec. The result-invariance part (side-effect blocks, final values) is checked on the implementation only (metamorphic), not proved. No axioms.",
  "technique": "Coq proof (simulation modulo token indices and a parser-state invariant over the parser model, unbounded, for whitespace / annotation / comment-line rewrites; vm_compute bounded enumeration for the other clauses) + metamorphic differential testing of the implementation"}
 TRUSTED = vplib.BASE_TRUSTED + ["harness/src/bin/exec.rs (final values read back through the GarnishData getters)"]
@@ -181,6 +181,48 @@ def strip_end_separators(sig, tts):
     return sig[a:b]
 
 
+OPERAND_END = {"Number", "Identifier", "CharList", "ByteList", "Symbol", "UnitLiteral", "Value", "True", "False",
+               "ExpressionTerminator", "Unknown", "EndGroup", "EndExpression", "EmptyApply", "RightInternal",
+               "LengthInternal", "SuffixIdentifier"}
+OPENS_OPERAND = {"StartGroup", "StartExpression", "AbsoluteValue", "Opposite", "BitwiseNot", "Not", "Tis", "TypeOf",
+                 "Reapply", "LeftInternal", "PrefixIdentifier"}
+TRIVIA = {"Whitespace", "Annotation", "LineAnnotation"}
+
+
+def block_then_group(orc, tts):
+    """classifier of C18-K1: `]` of a side-effect block, trivia, then `(` / `{` / a prefix operator, where the run
+    of adjacent blocks that ends at this `]` is not preceded by an operand"""
+    toks = [tts[int(x)] for x in orc.split(";")[0][5:].split(",") if x] if orc.startswith("toks=") else []
+
+    def back(i):
+        i -= 1
+        while i >= 0 and toks[i] in TRIVIA:
+            i -= 1
+        return i
+    for i, t in enumerate(toks):
+        if t not in OPENS_OPERAND:
+            continue
+        j = back(i)
+        if j < 0 or toks[j] != "EndSideEffect":
+            continue
+        while j >= 0 and toks[j] == "EndSideEffect":
+            depth = 0
+            while j >= 0:
+                if toks[j] == "EndSideEffect":
+                    depth += 1
+                elif toks[j] == "StartSideEffect":
+                    depth -= 1
+                    if depth == 0:
+                        break
+                j -= 1
+            if j < 0:
+                break
+            j = back(j)
+        if j < 0 or toks[j] not in OPERAND_END:
+            return True
+    return False
+
+
 def run(tier, seed):
     v = Verdict(PID, tier, seed)
     v.assumptions = ["a rewrite is applicable when the original program is accepted and, for whitespace removal, the sequence of non-trivia tokens is unchanged",
@@ -281,6 +323,8 @@ def run(tier, seed):
                         what = "result changed: %s -> %s" % (run0, run1)
                 if what:
                     fid = None
+                    if "no longer accepted" in what and " P=ERR7" in res and block_then_group(orc, tts):
+                        fid = "C18-K1"
                     if fid and fid in listed:
                         v.known_hit(fid, "%r -> %r: %s" % (text(progs[pi]), txt, what))
                     else:
